@@ -54,7 +54,9 @@ def collect_mutants(props):
         patch = os.path.join(sdir, name, "patch.diff")
         if os.path.exists(meta) and os.path.exists(patch):
             info = json.load(open(meta))
-            prop = info.get("property")
+            # a change seeded for one property may sit in code another property's check owns
+            # (the download cache belongs to C18): meta.json then names the check that judges it
+            prop = info.get("checked_by") or info.get("property")
             if info.get("obsolete"):
                 continue        # neutralised by a later repair of /repo, see its meta.json
             if not props or prop in props:
